@@ -127,6 +127,18 @@ func c06pre() *c06 {
 		if vChoose("reinit", 2) == 1 {
 			s.la[0].Init() // handles pushed before still name the list
 			s.lb[0].Init()
+			// ... and using one of them afterwards leaves container/list in a state where Len and
+			// the links disagree (Len can be back at 0 over live links); the fork must follow it there
+			if vChoose("postpush", 2) == 1 {
+				v := vInt("p")
+				s.add(s.la[0].PushBack(v), s.lb[0].PushBack(v))
+			}
+			if nh := len(s.ha); nh > 0 && vChoose("staleRemove", 2) == 1 {
+				e := vChoose("stale", nh)
+				s.la[0].Remove(s.ha[e])
+				s.lb[0].Remove(s.hb[e])
+				vCover("list: a handle that survived Init is removed afterwards")
+			}
 		}
 	}
 	return s
